@@ -53,6 +53,7 @@ func (h *H[T]) C10(rc *runCtx) *Violation {
 	cont := []int{8, 3, 24, 64, 200}[prog.Draw(5)]
 	maxOut := 1 + prog.Draw(rc.b.MaxOut)
 	marathon := false
+	manyOut := false
 	switch {
 	case isHuge(a):
 		nOps, maxOut = 14, 3
@@ -63,9 +64,21 @@ func (h *H[T]) C10(rc *runCtx) *Violation {
 		// (wrapping counters, ring indices, generation numbers).
 		marathon = true
 		a = signal.Allocator{Channels: 1 + prog.Draw(2), Length: prog.Draw(2), Capacity: 1 + prog.Draw(3)}
-		nOps, cont, maxOut = 150000+prog.Draw(150000), 1<<30, 18+prog.Draw(8)
+		nOps, cont, maxOut = 150000+prog.Draw(150000), 1<<30, []int{18, 25, 70, 130}[prog.Draw(4)]
 		sim.MaxSteps = 1 << 28 // a library with goroutines of its own needs steps per operation
 		rc.tally("shape_class", "marathon")
+	case prog.Draw(64) == 63:
+		// many buffers out at once on a small shape (bounded caches and rings
+		// in front of the pool overflow only then)
+		if a.Channels*a.Capacity > 64 {
+			a.Capacity = 64 / a.Channels
+			if a.Length > a.Capacity {
+				a.Length = a.Capacity
+			}
+		}
+		maxOut, cont = 40+prog.Draw(100), 200
+		manyOut = true
+		rc.tally("shape_class", "many-outstanding")
 	default:
 		rc.tally("shape_class", "ordinary")
 	}
@@ -290,6 +303,9 @@ func (h *H[T]) C10(rc *runCtx) *Violation {
 				}
 			}
 			kind := prog.Draw(8)
+			if manyOut && kind >= 3 && prog.Draw(2) == 0 {
+				kind = prog.Draw(3) // mostly gets and puts, so that the number of buffers out wanders far
+			}
 			if marathon {
 				// mostly gets and puts, drifting between few and many buffers out
 				switch k := prog.Draw(20); {
